@@ -51,11 +51,11 @@ BOUNDS = {
     "tucker, non_negative_tucker(_hals) (ranks (1..1),(2..2)), PARAFAC2 (2 slices 2x2, R in {1,2}, init from Parafac2Tensor and from CPTensor through QR); "
     "absorption: CP-ALS order 2, R in {1,2}; fixed modes (one sweep, tol=0): every non-empty subset at order 3, R=2 for the four CP algorithms, "
     "tucker(fixed_factors) budgets 0 and 1, non_negative_tucker_hals subsets without the last mode",
-    "thorough": "additionally order 4 and R=3 (cube-root atom) for the zero-budget checks, CP-ALS absorption at order 3 (R=1), fixed-mode subsets at order 2 and R=1",
+    "thorough": "additionally order 4 and R=3 (cube-root atom) for the zero-budget checks, fixed-mode subsets at order 2 and R=1",
 }
 OUTSIDE = [
     "mode sizes > 2, R > 3, budgets > 1 (one sweep is the induction step: the next sweep starts from a state that no longer depends on how the init was expressed)",
-    "weight absorption for HALS / AO-ADMM (inner solver is a functional stub: equality of differently scaled NNLS problems is not expressible) and for "
+    "weight absorption for CP-ALS at order >= 3 (nested Cramer quotients: identity undecided at 120 s), for HALS / AO-ADMM (inner solver is a functional stub: equality of differently scaled NNLS problems is not expressible) and for "
     "multiplicative-update NN-CP (identities / models over nested merged clip() terms are not decided by z3); one-sweep PARAFAC2 (orthonormality validation of "
     "projections built from SVD stub outputs forks an undecided exception path)",
     "non_negative_parafac (MU): identity of a last-mode factor declared fixed (no model found over nested merged updates; the same un-fix logic is decided for the other CP algorithms)",
@@ -352,7 +352,7 @@ def configs(tier):
     # (b) weight absorption, one sweep: CP-ALS with exact (Cramer) solves.
     # Not decidable here (see OUTSIDE): HALS / AO-ADMM (inner solver is a stub: equality of differently scaled NNLS problems),
     # multiplicative-update NN-CP (identities / models over nested merged clip() terms are not decided by z3)
-    for order, R in ((2, 1), (2, 2)) if q else ((2, 1), (2, 2), (3, 1)):
+    for order, R in ((2, 1), (2, 2)):  # (order 3: the nested rational identity is undecided at 120 s even for R=1)
         for w in ("pos", "any"):
             add(f"absorb/parafac/o{order}/R{R}/w_{w}", kind="cp_absorb", alg="parafac", order=order, R=R, w=w)
     # (c) fixed modes, one sweep
